@@ -912,4 +912,36 @@ example : runHist nfcPrims [.forlookup ([69, 0x301, 64] ++ badDom), .equal ([69,
 example : runPar asciiPrims [[.forlookup ex1, .forlookup ex2], [.forlookup ex2]] =
     [[.res ex2 true, .res ex2 true], [.res ex2 true]] := by decide
 
+/-! ## round 11: no size enters the key — names whose U-label form is (much) bigger than their A-label form -/
+
+/-- **C17 (a key for every name the library decodes, whatever its size).** `dns.ForLookup` has no branch on the
+length of its argument: whenever the library decodes the name (with the ACE prefixes lower-cased), the key is the
+NFC lower-case form of what it returned, without the root dot. There is no hypothesis on `d.length`: a U-label
+spelling of 257 or 900 octets of a name whose A-label form fits RFC 1035 gets a key like any other. -/
+theorem C17_dns_key_any_size (P : Prims) (d u : Str) (h : P.toUnicode (lowerACE d) = (u, true)) :
+    dnsForLookup P d = (trimDot (P.lower (P.nfc u)), true) := by
+  simp [dnsForLookup, dnsToUnicode, h]
+
+/-- **C17 (spellings of one name, whatever their sizes).** Two spellings the library decodes to texts with the same
+NFC lower-case form (A-labels vs U-labels, NFD, upper case; a root dot on either) have the same DNS key and are
+`dns.Equal` — again without any bound on the lengths of `d1`, `d2`. -/
+theorem C17_dns_spellings_any_size (P : Prims) (d1 d2 u1 u2 : Str)
+    (h1 : P.toUnicode (lowerACE d1) = (u1, true)) (h2 : P.toUnicode (lowerACE d2) = (u2, true))
+    (hn : trimDot (P.lower (P.nfc u1)) = trimDot (P.lower (P.nfc u2))) :
+    dnsForLookup P d1 = dnsForLookup P d2 ∧ dnsEqual P d1 d2 = true := by
+  have e : dnsForLookup P d1 = dnsForLookup P d2 := by
+    rw [C17_dns_key_any_size P d1 u1 h1, C17_dns_key_any_size P d2 u2 h2, hn]
+  exact ⟨e, (C17_dnsEqual_iff_key_eq P d1 d2).mpr (by rw [e])⟩
+
+/-- **C17 (the key of a key, whatever its size).** If the library leaves the key alone (it is in U-label form: the
+law sampled on the real library) and NFC + lower-casing + trimming fix it, `dns.ForLookup` of the key is the key,
+without error — however many octets the key has. -/
+theorem C17_dns_key_idempotent_any_size (P : Prims) (d u k : Str)
+    (h : P.toUnicode (lowerACE d) = (u, true)) (hk : trimDot (P.lower (P.nfc u)) = k)
+    (lawU : P.toUnicode (lowerACE k) = (k, true)) (lawN : trimDot (P.lower (P.nfc k)) = k) :
+    dnsForLookup P (dnsForLookup P d).1 = dnsForLookup P d := by
+  rw [C17_dns_key_any_size P d u h, hk]
+  simp only
+  rw [C17_dns_key_any_size P k k lawU, lawN]
+
 end MaddyVerif.C17
